@@ -183,6 +183,11 @@ func F5(o Opts, emit func(string, *ex.E) bool) bool {
 		ex.Attr(ex.Obj(ex.IdItem("a", ex.Var("o"))), "a"),
 		ex.Idx(ex.Str("abc"), ex.Num("0")),
 		ex.Idx(ex.Var("mn"), ex.Idx(ex.Var("ls"), ex.Num("0"))),
+		ex.Bin("==", ex.Idx(ex.Tuple(ex.Var("one"), ex.Str("a")), ex.Var("zero")), ex.Var("one")),
+		ex.Bin("==", ex.Idx(ex.Tuple(ex.Num("1"), ex.Str("1")), ex.Var("zero")), ex.Num("1")),
+		ex.Idx(ex.Tuple(ex.Tuple(ex.Var("sa")), ex.Var("ls")), ex.Var("zero")),
+		ex.Idx(ex.Tuple(ex.Var("one"), ex.Str("a"), ex.Kw("true")), ex.Var("one")),
+		ex.Attr(ex.Idx(ex.Tuple(ex.Var("o"), ex.Obj(ex.IdItem("a", ex.Str("s")))), ex.Var("zero")), "a"),
 	}
 	for _, c := range chains {
 		if !emit("F5-index", c) {
@@ -205,6 +210,9 @@ func F6(o Opts, emit func(string, *ex.E) bool) bool {
 		{ex.SLIdx("0")},
 		{ex.SAttr("zz")},
 		{ex.SIdx(ex.Str("a"))},
+		{ex.SIdx(ex.Var("sa"))},
+		{ex.SIdx(ex.Var("zero"))},
+		{ex.SAttr("b"), ex.SIdx(ex.Var("zero"))},
 	}
 	srcs := append(atoms(o), ex.Tuple(ex.Var("o"), ex.Var("o")), ex.Tuple(), ex.Attr(ex.Var("oo"), "l"), ex.Tuple(ex.Var("ln"), ex.Var("ln")))
 	for _, full := range []bool{false, true} {
@@ -264,6 +272,8 @@ func F7(o Opts, emit func(string, *ex.E) bool) bool {
 			ex.ForO("", "v", c, v, v, ex.Bin("!=", v, ex.Str("a")), false),
 			ex.ForO("k", "v", c, ex.Kw("null"), v, nil, false),
 			ex.ForO("k", "v", c, ex.Tmpl("q", ex.Lit("k"), ex.Interp(k)), v, nil, false),
+			ex.ForO("k", "v", c, k, v, ex.Bin(">", v, ex.Num("1")), false),
+			ex.ForT("k", "v", c, k, ex.Bin(">", v, ex.Num("1"))),
 		}
 		for _, f := range forms {
 			if !emit("F7-for", f) {
@@ -279,6 +289,9 @@ func F7(o Opts, emit func(string, *ex.E) bool) bool {
 		ex.ForT("", "ln", ex.Var("ln"), ex.Var("ln"), nil),
 		ex.Bin("+", ex.Idx(ex.ForT("", "v", ex.Var("ln"), v, nil), ex.Num("0")), ex.Var("one")),
 		ex.ForO("k", "v", ex.Var("mn"), k, ex.Bin("*", v, ex.Num("2")), ex.Bin(">", v, ex.Num("1")), false),
+		ex.ForO("k", "v", ex.Var("lo"), k, ex.Attr(v, "a"), ex.Bin(">", ex.Attr(v, "a"), ex.Num("1")), false),
+		ex.ForT("", "v", ex.Var("lo"), ex.Attr(v, "a"), ex.Bin(">", ex.Attr(v, "a"), ex.Num("1"))),
+		ex.ForO("", "v", ex.Var("lo"), ex.Tmpl("q", ex.Lit("k"), ex.Interp(ex.Attr(v, "a"))), ex.Attr(v, "b"), ex.Bin("<", ex.Attr(v, "a"), ex.Num("2")), true),
 	}
 	for _, f := range extra {
 		if !emit("F7-for", f) {
